@@ -183,7 +183,20 @@ class AnyOf(MultiFieldWrapper, Field, metaclass=_JSONSchemaDraft4ReuseMeta):
         return _str_for_multioption_field(self)
 
     def serialize(self, value):
-        return None if value is None else self._not_nonefield.serialize(value)
+        if value is None:
+            return None
+        options = [f for f in self.get_fields() if not isinstance(f, NoneField)]
+        if len(options) > 1:
+            # several types: hand the value to the option that takes it (Boolean/Enum.serialize given a
+            # collection of another option would return the live collection itself)
+            for field in options:
+                setattr(field, "_name", self._name)
+                try:
+                    field.__set__(_scratch_instance(None), value)
+                except (TypeError, ValueError):
+                    continue
+                return field.serialize(value)
+        return self._not_nonefield.serialize(value)
 
 
 class OneOf(MultiFieldWrapper, Field, metaclass=_JSONSchemaDraft4ReuseMeta):
